@@ -129,9 +129,28 @@ class Ctx:
         acts["__never_taken__"] = zero
         return gen, dist, acts
 
-    def tlc_mc(self, module, cfg, workers=8, timeout=1800, must_cover=(), subdir="mc", extra=(), simulate=None, coverage=False):
+    def _spec_hash(self):
+        h = hashlib.sha1()
+        for root, _, files in sorted(os.walk(SPEC)):
+            for f in sorted(files):
+                if f.endswith(".tla") or f.endswith(".cfg"):
+                    h.update(f.encode()); h.update(open(os.path.join(root, f), "rb").read())
+        return h.hexdigest()
+
+    def tlc_mc(self, module, cfg, workers=8, timeout=1800, must_cover=(), subdir="mc", extra=(), simulate=None, coverage=False, cache=False):
         """Exhaustive (or simulated) model check. Any invariant violation of the *spec* is a tool error:
-        the spec is supposed to hold; it is the oracle."""
+        the spec is supposed to hold; it is the oracle.
+        cache=True (only for the pure operator libraries, which do not depend on /repo): a successful run is remembered
+        under .build/cache keyed by the content of every spec file, so the checks of one session do not repeat it."""
+        cdir = os.path.join(BUILD, "cache")
+        ckey = os.path.join(cdir, "%s_%s_%s.json" % (module, os.path.splitext(cfg)[0], self._spec_hash()[:16]))
+        if cache and os.path.exists(ckey):
+            rec = json.load(open(ckey))
+            rec["reused_from_cache_of_this_session"] = True
+            # not counted in states / transitions of this run: it was not executed by this run
+            self.cov.setdefault("library_model_checks_reused", []).append(rec)
+            self.log("MC %s %s: reused (unchanged spec files; %d distinct states, ran %.1fs)" % (module, cfg, rec["distinct_states"], rec["wall_s"]))
+            return rec["states_generated"], rec["distinct_states"], {}
         coverage = coverage or bool(must_cover)
         ex = (["-coverage", "1"] if coverage else []) + list(extra)
         if simulate:
@@ -151,6 +170,9 @@ class Ctx:
         self.cov["mc_runs"].append({"module": module, "cfg": cfg, "distinct_states": dist, "states_generated": gen,
                                     "wall_s": round(dt, 1), "exhaustive": not simulate,
                                     "actions": {k: v[1] for k, v in sorted(acts.items())}})
+        if cache:
+            os.makedirs(cdir, exist_ok=True)
+            json.dump(self.cov["mc_runs"][-1], open(ckey, "w"))
         self.log("MC %s %s: %d distinct / %d generated in %.1fs" % (module, cfg, dist, gen, dt))
         return gen, dist, acts
 
